@@ -23,6 +23,7 @@ type ('sh, 'ts, 'l, 'op, 'ret) comp = {
   extra : (string * string) list -> string list list -> 'op list list;  (* threads the code under test may spawn *)
   with_choices : 'sh -> int list -> 'sh;   (* per-run oracle stream (select choices) *)
   cfg_digest : (Obj.t -> string) option;   (* digest needing the whole configuration (thread states) *)
+  kind_of : 'l -> nat;          (* which kind of shared access the step from this local state is (0 = unspecified) *)
 }
 
 (* coverage of model program counters: kind -> set of constructor keys *)
@@ -76,6 +77,7 @@ let process_runs (type sh ts l op ret) (c : (sh, ts, l, op, ret) comp) (s : scn)
   let seen : (string, unit) Hashtbl.t = Hashtbl.create 1024 and nontriv = ref 0 in
   let continue = ref true in
   let choices = ref [] in
+  let kline = ref [] in
   let cur_n = ref "" and sline = ref [] and cline = ref "" and hline = ref "" and fline = ref None
   and aline = ref None and vline = ref None in
   let finish_run () =
@@ -101,10 +103,22 @@ let process_runs (type sh ts l op ret) (c : (sh, ts, l, op, ret) comp) (s : scn)
           | EFault (t, _) ->
             let t = int_of_nat t - 1 in
             Buffer.add_string buf (Printf.sprintf " FAULT%d" t)) evs in
+    let kinds = Array.of_list !kline in
+    let kind_bad = ref None in
     let rec go cfg sched pos =
       match sched with
       | [] -> Ok cfg
       | t :: rest ->
+        (* the kind of access the implementation performed here vs the kind of the model step about to run *)
+        (if !kind_bad = None && pos < Array.length kinds && kinds.(pos) <> 0 then
+           match List.nth_opt cfg.c_thr (t + 1) with
+           | Some th ->
+             (match view c.mach th with
+              | Some ((_, l), _) ->
+                let mk = int_of_nat (c.kind_of l) in
+                if mk <> 0 && mk <> kinds.(pos) then kind_bad := Some (pos, kinds.(pos), mk)
+              | None -> ())
+           | None -> ());
         (match replay_step c.mach fuel cfg (nat_of_int (t + 1)) with
          | Some (cfg', evs) ->
            (* coverage only: redo the step one access at a time to see the silent pcs too *)
@@ -134,6 +148,10 @@ let process_runs (type sh ts l op ret) (c : (sh, ts, l, op, ret) comp) (s : scn)
           (String.concat " " (List.map string_of_int !sline)) impl_h model_h extra in
     (match res with
      | Error pos -> report "stuck" (Printf.sprintf "|model cannot take access #%d" pos)
+     | Ok _ when !kind_bad <> None ->
+       (match !kind_bad with
+        | Some (pos, ik, mk) -> report "access-kind" (Printf.sprintf "|access #%d is of kind %d in the implementation, %d in the model" pos ik mk)
+        | None -> ())
      | Ok cfg ->
        if model_h <> impl_h then report "history" ""
        else (match !fline, !aline with
@@ -159,7 +177,7 @@ let process_runs (type sh ts l op ret) (c : (sh, ts, l, op, ret) comp) (s : scn)
       let n = String.length line in
       if n >= 4 && String.sub line 0 4 = "RUN " then begin
         cur_n := List.nth (split_ws line) 2;
-        sline := []; cline := ""; hline := ""; fline := None; aline := None; vline := None
+        sline := []; kline := []; cline := ""; hline := ""; fline := None; aline := None; vline := None
       end
       else if n >= 1 && line.[0] = 'S' && (n = 1 || line.[1] = ' ') then
         (let toks = split_ws (String.sub line 1 (n - 1)) in
@@ -167,6 +185,8 @@ let process_runs (type sh ts l op ret) (c : (sh, ts, l, op, ret) comp) (s : scn)
              | Some i -> int_of_string (String.sub tok 0 i) | None -> int_of_string tok) toks;
          choices := List.filter_map (fun tok -> match String.index_opt tok ':' with
              | Some i -> Some (int_of_string (String.sub tok (i + 1) (String.length tok - i - 1))) | None -> None) toks)
+      else if n >= 1 && line.[0] = 'K' && (n = 1 || line.[1] = ' ') then
+        kline := List.map int_of_string (split_ws (String.sub line 1 (n - 1)))
       else if n >= 1 && line.[0] = 'C' && (n = 1 || line.[1] = ' ') then
         cline := String.trim (String.sub line 1 (n - 1))
       else if n >= 1 && line.[0] = 'H' && (n = 1 || line.[1] = ' ') then
@@ -226,13 +246,13 @@ let queue_digest iter rets =
 let jdk_comp = {
   mach = jdk; sh0 = (fun _ _ -> qinit); ts0 = qiter0; parse_op = parse_qop; show_ret = show_qret;
   prefill = (fun _ pre -> List.map (fun v -> if v < 0 then Poll else Offer (nat_of_int v)) pre);
-  final_prog = queue_final true; final_digest = queue_digest true; pc_of = (fun l -> Obj.repr l.l_pc); sh_digest = (fun _ -> ""); extra = (fun _ _ -> []); with_choices = (fun sh _ -> sh); cfg_digest = None;
+  final_prog = queue_final true; final_digest = queue_digest true; pc_of = (fun l -> Obj.repr l.l_pc); kind_of = jdk_kind; sh_digest = (fun _ -> ""); extra = (fun _ _ -> []); with_choices = (fun sh _ -> sh); cfg_digest = None;
 }
 
 let mutex_comp = {
   mach = mutexq; sh0 = (fun _ _ -> minit); ts0 = (); parse_op = parse_qop; show_ret = show_qret;
   prefill = (fun _ pre -> List.map (fun v -> if v < 0 then Poll else Offer (nat_of_int v)) pre);
-  final_prog = queue_final false; final_digest = queue_digest false; pc_of = Obj.repr; sh_digest = (fun _ -> ""); extra = (fun _ _ -> []); with_choices = (fun sh _ -> sh); cfg_digest = None;
+  final_prog = queue_final false; final_digest = queue_digest false; pc_of = Obj.repr; kind_of = mutexq_kind; sh_digest = (fun _ -> ""); extra = (fun _ _ -> []); with_choices = (fun sh _ -> sh); cfg_digest = None;
 }
 
 (* adders *)
@@ -259,8 +279,8 @@ let striped_init opts pre =
     let slots = List.init cap (fun j -> if j < n && (mask lsr j) land 1 = 1 then (incr next; nat_of_int !next) else O) in
     { s0 with a_table = Some (O, nat_of_int n); a_arrays = [slots]; a_cells = List.init !next (fun _ -> Z0) }
   end
-let adder_comp mach sh0 = {
-  mach; sh0; ts0 = (); parse_op = parse_aop; show_ret = show_aret;
+let adder_comp mach sh0 kind_of = {
+  mach; sh0; kind_of; ts0 = (); parse_op = parse_aop; show_ret = show_aret;
   prefill = (fun _ _ -> []); final_prog = adder_final; final_digest = adder_digest; pc_of = Obj.repr; sh_digest = (fun _ -> ""); extra = (fun _ _ -> []); with_choices = (fun sh _ -> sh); cfg_digest = None;
 }
 
@@ -292,7 +312,7 @@ let breaker_comp opts window_only = {
           if window_only then winit ticks else binit (nat_of_int (opt_int o "listeners" 1)) ticks);
   ts0 = (); parse_op = parse_bop; show_ret = show_bret;
   prefill = (fun _ _ -> []); final_prog = (fun _ _ _ -> []); final_digest = (fun _ -> "");
-  pc_of = Obj.repr; sh_digest = (fun s -> show_log s.b_log); extra = (fun _ _ -> []); with_choices = (fun sh _ -> sh); cfg_digest = None;
+  pc_of = Obj.repr; kind_of = breaker_kind; sh_digest = (fun s -> show_log s.b_log); extra = (fun _ _ -> []); with_choices = (fun sh _ -> sh); cfg_digest = None;
 }
 
 (* worker pool *)
@@ -341,7 +361,7 @@ let pool_comp opts threads =
     sh0 = (fun o _ -> pinit (nat_of_int (opt_int o "workers" 1)) (opt_int o "autostart" 1 <> 0) []);
     ts0 = (); parse_op = parse_pop; show_ret = show_pret;
     prefill = (fun _ _ -> []); final_prog = (fun _ _ _ -> []); final_digest = (fun _ -> "");
-    pc_of = Obj.repr; sh_digest = (fun _ -> "");
+    pc_of = Obj.repr; kind_of = pool_kind; sh_digest = (fun _ -> "");
     extra = (fun _ _ -> List.init nslots (fun k -> [Slot (nat_of_int k)]));
     with_choices = (fun sh ch -> upd_choices sh (List.map nat_of_int ch));
     cfg_digest = Some (pool_digest nclients nslots);
@@ -373,13 +393,13 @@ let () =
              | "jdk" -> process_runs jdk_comp s ic
              | "mutex" -> process_runs mutex_comp s ic
              | "jdkadd" ->
-               process_runs (adder_comp (jdk_adder (zint (opt_int opts "maxcells" 2))) striped_init) s ic
+               process_runs (adder_comp (jdk_adder (zint (opt_int opts "maxcells" 2))) striped_init striped_kind) s ic
              | "jdkf" ->
-               process_runs (adder_comp (jdk_f64_adder (zint (opt_int opts "maxcells" 2))) striped_init) s ic
-             | "rc" -> process_runs (adder_comp rc_adder (fun _ pre -> rinit (nat_of_int 128) (List.map zint pre))) s ic
-             | "atomic" -> process_runs (adder_comp atomic_adder (fun _ _ -> Z0)) s ic
-             | "atomicf" -> process_runs (adder_comp atomic_f64_adder (fun _ _ -> Z0)) s ic
-             | "mutexadd" -> process_runs (adder_comp mutex_adder (fun _ _ -> xinit)) s ic
+               process_runs (adder_comp (jdk_f64_adder (zint (opt_int opts "maxcells" 2))) striped_init striped_kind) s ic
+             | "rc" -> process_runs (adder_comp rc_adder (fun _ pre -> rinit (nat_of_int 128) (List.map zint pre)) rc_kind) s ic
+             | "atomic" -> process_runs (adder_comp atomic_adder (fun _ _ -> Z0) atomic_kind) s ic
+             | "atomicf" -> process_runs (adder_comp atomic_f64_adder (fun _ _ -> Z0) atomic_kind) s ic
+             | "mutexadd" -> process_runs (adder_comp mutex_adder (fun _ _ -> xinit) mutexadd_kind) s ic
              | "breaker" -> process_runs (breaker_comp opts false) s ic
              | "window" -> process_runs (breaker_comp opts true) s ic
              | "pool" -> process_runs (pool_comp opts s.threads) s ic
